@@ -4,10 +4,10 @@ import Driver.Util
 /-
 xm_c14: runs generated stylesheets (as instruction trees) on the Lean model of the result-event machine.
 Request (one case per line, blank-separated tokens, `-` = empty string, `#` = default prefix):
-  case  := NDECL (p u)*  NEXCL p*  NALIAS (stylesheet-prefix result-prefix)*  SRC  NBODY INSTR*
+  case  := NDECL (p u)*  NEXCL p*  NALIAS (stylesheet-prefix result-prefix)*  NSETS (NATTR (name NSFLAG ns value)*)*  SRC  NBODY INSTR*
   SRC   := name uri NATT (qname val)* NKIDS SRC*
-  INSTR := L name NDECL (p u)* NATT (qname val)* NEXCL p* NBODY INSTR*
-         | E name NSFLAG ns NBODY INSTR* | A name NSFLAG ns value | T | C k | Y k NBODY INSTR*
+  INSTR := L name NDECL (p u)* NATT (qname val)* NEXCL p* NUSE set* NBODY INSTR* | U NUSE set* (first child of E/Y)
+         | E name NSFLAG ns NBODY INSTR* | A name NSFLAG ns value | T | C k | CA k attr-qname | Y k NBODY INSTR*
 Reply: `S name NATT (qname val)*` / `E name` / `T` events in order, then `|` and the branch tags;
        `BAD` (stylesheet would not compile), `ERR` (exception thrown), `bad` (unparsable request).
 -/
@@ -53,6 +53,11 @@ def pAlias : P (String × String)
   | a :: b :: ts => some ((pfxOf a, pfxOf b), ts)
   | _ => none
 
+def pSetAttr : P SetAttr
+  | name :: flag :: ns :: value :: ts =>
+    some (⟨qn name, if flag = "1" then some (str ns) else none, str value⟩, ts)
+  | _ => none
+
 def pPfx : P String
   | p :: ts => some (pfxOf p, ts)
   | [] => none
@@ -66,7 +71,11 @@ partial def pSrc : P Src
 
 partial def pInstr : P Instr
   | "T" :: ts => some (.text, ts)
+  | "U" :: ts => do
+    let (ks, ts) ← pCounted pNat ts
+    pure (.useSets ks, ts)
   | "C" :: k :: ts => k.toNat?.map (fun k => (.copyOf k, ts))
+  | "CA" :: k :: name :: ts => k.toNat?.map (fun k => (.copyAttr k (qn name), ts))
   | "Y" :: k :: ts => do
     let k ← k.toNat?
     let (body, ts) ← pCounted pInstr ts
@@ -80,8 +89,9 @@ partial def pInstr : P Instr
     let (decls, ts) ← pCounted pNS ts
     let (atts, ts) ← pCounted pAtt ts
     let (excl, ts) ← pCounted pPfx ts
+    let (use, ts) ← pCounted pNat ts
     let (body, ts) ← pCounted pInstr ts
-    pure (.lre (qn name) decls atts excl body, ts)
+    pure (.lre (qn name) decls atts excl use body, ts)
   | _ => none
 
 def showStr (s : String) : String := if s = "" then "-" else s
@@ -97,12 +107,13 @@ def runLine (ts : List String) : String :=
     let (decls, ts) ← pCounted pNS ts
     let (excl, ts) ← pCounted pPfx ts
     let (al, ts) ← pCounted pAlias ts
+    let (sets, ts) ← pCounted (pCounted pSetAttr) ts
     let (src, ts) ← pSrc ts
     let (body, ts) ← pCounted pInstr ts
-    if ts.isEmpty then pure (decls, excl, al, src, body) else none) with
+    if ts.isEmpty then pure (decls, excl, al, sets, src, body) else none) with
   | none => "bad"
-  | some (decls, excl, al, src, body) =>
-    let r := runCase XalanModel.Generated.C14_Variant.variant decls excl al src body
+  | some (decls, excl, al, sets, src, body) =>
+    let r := runCase XalanModel.Generated.C14_Variant.variant decls excl al sets src body
     if r.bad then "BAD"
     else if r.st.err then "ERR | " ++ " ".intercalate r.tags.reverse
     else " ".intercalate (r.st.out.reverse.map showEv) ++ " | " ++ " ".intercalate r.tags.reverse
